@@ -24,6 +24,11 @@ INF = -1
 # worker (runs in the subprocess; no harness imports here)
 # ===========================================================================
 
+# resource numbers of the Linux ABI (include/uapi/asm-generic/resource.h)
+RLIMIT_ABI = ["CPU", "FSIZE", "DATA", "STACK", "CORE", "RSS", "NPROC", "NOFILE", "MEMLOCK", "AS", "LOCKS",
+              "SIGPENDING", "MSGQUEUE", "NICE", "RTPRIO", "RTTIME"]
+
+
 def _worker():
     import psutil
     out = sys.stdout
@@ -60,6 +65,9 @@ def _worker():
                 v = p.cpu_affinity(*c["a"])
             elif op == "rlimit":
                 a = list(c["a"])
+                # the resource is named the way a caller names it: psutil.RLIMIT_<NAME>
+                if a and isinstance(a[0], int) and 0 <= a[0] < len(RLIMIT_ABI):
+                    a[0] = getattr(psutil, "RLIMIT_" + RLIMIT_ABI[a[0]], a[0])
                 if len(a) > 1 and a[1] is not None:
                     a[1] = tuple(a[1]) if c.get("tuple", True) else list(a[1])
                 v = p.rlimit(*a)
